@@ -4,6 +4,7 @@
 Applies the patch in the scratch worktree /tmp/mut (reset to /repo's HEAD first), runs ./check <prop> against
 it with a separate build dir, prints the tail of the output and the exit code, and reverts."""
 import os, subprocess, sys
+HERE = os.path.dirname(os.path.dirname(os.path.abspath(__file__)))   # the /verif this tool belongs to (a snapshot copy works too)
 WT = os.environ.get("EVAL_WT", "/tmp/mut")
 def sh(cmd):
     return subprocess.run(cmd, shell=True, text=True, stdout=subprocess.PIPE, stderr=subprocess.STDOUT)
@@ -16,7 +17,7 @@ r = sh("git -C %s apply %s" % (WT, os.path.abspath(patch)))
 if r.returncode != 0:
     print("PATCH DOES NOT APPLY:", r.stdout); sys.exit(3)
 env = dict(os.environ, ORCSIM_REPO=WT, ORCSIM_BUILD=WT + "build")
-r = subprocess.run(["/verif/check", prop] + sys.argv[3:], env=env, text=True, stdout=subprocess.PIPE, stderr=subprocess.STDOUT)
+r = subprocess.run([os.path.join(HERE, "check"), prop] + sys.argv[3:], env=env, text=True, stdout=subprocess.PIPE, stderr=subprocess.STDOUT)
 lines = [l for l in r.stdout.splitlines() if not l.startswith("    #") and not l.startswith("KNOWN-FINDING")]
 print("\n".join(l[:260] for l in lines[-10:]))
 print("EXIT", r.returncode, "(1 = change detected)")
